@@ -141,13 +141,17 @@ def _diag(draw, test_level=False):
   if kind == 'garbage':
     return {'garbage': 1}
   n = _weighted(draw, [(1, 8), (0, 1), (2, 3)])
+  as_class = (not test_level) and draw(st.integers(0, 3)) == 0
   emit = []
   for _ in range(n):
     r = draw(st.integers(0, NRES - 1))
     flag = _weighted(draw, [('plain', 5), ('fail', 4), ('internal', 0 if test_level else 2)])
     emit.append([r, flag == 'fail', flag == 'internal'])
   af = draw(st.integers(0, 7)) == 0 and not any(e[2] for e in emit)
-  return {'emit': emit, 'af': af}
+  d = {'emit': emit, 'af': af}
+  if as_class:
+    d['cls'] = True
+  return d
 
 
 def _behaviour(draw, meas, in_subtest, timeout_phase, simple=False):
@@ -581,8 +585,25 @@ def _mk_diag(d, ctx, htf, tag, test_level):
     return [htf.Diagnosis(members[r], 'd', is_failure=bool(f), is_internal=bool(i)) for r, f, i in d['emit']]
 
   run.__name__ = ('td' if test_level else 'd') + '_'.join(str(x) for x in tag)
+  if d.get('cls') and not test_level:
+    # the subclass style (test/core/diagnoses_test.py: the class passes a fixed name to the base): two instances of one
+    # class differ only in attributes of their own, the base's fields (result type, name, always_fail) are the same
+    from openhtf.core import diagnoses_lib as _dl  # pylint: disable=g-import-not-at-top
+
+    class LimitDiagnoser(_dl.BasePhaseDiagnoser):
+      def __init__(self, fn, always_fail):
+        super(LimitDiagnoser, self).__init__(R, name='limit_diagnoser', always_fail=always_fail)
+        self.fn = fn
+
+      def run(self, phase_record):
+        return self.fn(phase_record)
+
+    return _SHARED_DIAG_CLASS.setdefault('cls', LimitDiagnoser)(run, bool(d.get('af')))
   cls = htf.TestDiagnoser if test_level else htf.PhaseDiagnoser
   return cls(R, name=run.__name__, always_fail=bool(d.get('af')))(run)
+
+
+_SHARED_DIAG_CLASS = {}
 
 
 def _mk_cond(cond, htf):
